@@ -180,6 +180,14 @@ def shard_junk(P, idx, n, seed):
 
 
 def run(R):
+    _run(R)
+    # coverage-guided fuzzing (atheris/libFuzzer) with the same oracle
+    from .. import fuzz
+    fuzz.session(R, "C04", R.pick(20000, 1500000), R.pick(4, 16))
+    R.require("atheris-executions")
+
+
+def _run(R):
     R.rule = RULE
     R.require("acceptance", "error-class", "hierarchy")
     R.assumptions = ["the grammar tables of spec/tables.py transcribe the FIRST vector-string grammars (cross-checked against "
